@@ -193,6 +193,10 @@ func (f *c08Farm) script(ep *farm.Endpoint, src net.Addr, req []byte, seq uint64
 func c08(c *Ctx) {
 	c.Res.Rule = "plans of N goroutines x K calls (mixed operations carrying unique ids, same and different controllers, UDP / TCP / broadcast paths mixed in one client, 1-3 clients, bind port 0 and fixed) run against an echoing farm whose reply delays are drawn adversarially from {0, 1ms, 0.3T, 0.7T}; GetDevices and a Listen start/stream/stop cycle run alongside; oracles: result == echo(own request) whenever the farm measurably answered within 0.85T of receiving the request; served-in-turn scenario on a fixed port; linearizability (porcupine) of PutCard/GetCardByID/DeleteCard histories against a stateful simulated controller, per (controller, card); in -race batches the Go race detector watches the whole run; distinct = distinct interleaving signatures (order of call-start / farm-recv / farm-send / call-end events per plan) + distinct (op, path, port mode) keys"
 	T := 300 * time.Millisecond
+	if c.Mode == "hammer" {
+		c08Hammer(c, T)
+		return
+	}
 	plans := c.N(8, 30)
 	if c.Mode == "race" {
 		plans = c.N(6, 20)
